@@ -427,6 +427,12 @@ def _gen_op(o, g, f, cfg, cells, cols, models, rows_n, cell, spec_for):
                 mp = [[cs[i], cs[i + 1]] for i in range(k2 - 1)] + [[cs[-1], g.choice(freec)]]
             g.shuffle(mp)
             return {'op': o, 't': t, 'map': mp, 'via': g.choice(['rename', 'relabel'])}
+        if r2 < 0.08 and all(len(c) < 6 for c in m.cols) and free:
+            # an affix for every column and, in the same call, one column named individually (the individual name wins)
+            form = g.choice(['suffix_kw', 'prefix_kw'])
+            one = g.choice(m.cols)
+            mp = [[c, free[0] if c == one else (c + '_s') if form == 'suffix_kw' else ('p_' + c)] for c in m.cols]
+            return {'op': o, 't': t, 'map': mp, 'via': form, 'one': one}
         if r2 < 0.25 and all(len(c) < 6 for c in m.cols):
             form = g.choice(['suffix', 'prefix', 'callable'])
             mp = [[c, (c + '_s') if form == 'suffix' else ('p_' + c) if form == 'prefix' else (c + c)] for c in m.cols]
@@ -799,6 +805,11 @@ def model_apply(op, models):
             return ('skip',)          # renaming onto a column that stays: outside the oracle
         if op.get('via') == 'namelist' and (set(mp) != set(m.cols) or len(m.cols) < 2):
             return ('skip',)
+        if op.get('via') in ('suffix_kw', 'prefix_kw'):
+            one = op.get('one')
+            exp = {c: (c + '_s') if op['via'] == 'suffix_kw' else ('p_' + c) for c in m.cols}
+            if one not in m.cols or one in ('data', 'columns', 'self') or any(mp.get(c) != exp[c] for c in m.cols if c != one) or set(mp) != set(m.cols):
+                return ('skip',)
         if op.get('via') in ('suffix', 'prefix', 'callable'):
             exp = {c: (c + '_s') if op['via'] == 'suffix' else ('p_' + c) if op['via'] == 'prefix' else (c + c) for c in m.cols}
             if mp != exp:
@@ -1121,6 +1132,9 @@ def execute(trace, ctx=None):
                     if same_as:
                         raise Violation('result-is-operand', '%s returned its operand table#%d itself instead of a new table' % (_short(op), same_as[0]), k)
                     item = [out[1], val]
+                    if op['op'] == 'project' and len(set(op['cols'])) == len(op['cols']) and list(dict.keys(val)) != list(op['cols']):
+                        # the model's records are {c: row[c] for c in requested}: positional renaming of the projection relies on it
+                        raise Violation('projection-column-order', '%s: columns come back as %s' % (_short(op), list(dict.keys(val))), k)
                     if out[1].n() == 0 and out[1].cols:
                         res.probe('empty-result-keeps-columns')
                     shared = [j for j, d in enumerate(reals) for c in dict.keys(d) for c2 in dict.keys(val)
@@ -1293,6 +1307,8 @@ def real_apply(op, reals, dictable):
             return d.relabel('_s')
         if via == 'prefix':
             return d.rename('p_')
+        if via in ('suffix_kw', 'prefix_kw'):
+            return d.relabel('_s' if via == 'suffix_kw' else 'p_', **{op['one']: mp[op['one']]})
         if via == 'identity':
             return d.relabel(lambda key: key)
         if via == 'callable':
